@@ -11,6 +11,8 @@ void EndExecution() {
 }
 void OnSwitch(int) {
 }
+void OnFiberStack(const void*, std::size_t) {
+}
 void OnSpawn(int, int) {
 }
 void OnJoin(int, int) {
